@@ -379,6 +379,15 @@ def par_lines(binary, lines, args=(), timeout=900, jobs=None, env=None, chunk=No
     return flat, fails
 
 
+def isolate_failure(binary, shard, args=(), timeout=60, env=None, limit=400):
+    """Find the first line of a failed shard on which the binary crashes/hangs when run alone."""
+    for l in shard[:limit]:
+        p = run_lines(binary, [l], args=args, timeout=timeout, env=env)
+        if p.returncode != 0 or not p.stdout.strip():
+            return l, p.returncode, p.stderr[-2000:]
+    return None, None, ''
+
+
 # ----------------------------------------------------------------------------- known findings
 def load_known():
     res = []
